@@ -400,15 +400,36 @@ func (ev *evaluator) run() (leaf *Leaf, need *needSource) {
 		fvs = append(fvs, ev.paramValue(fmt.Sprintf("fv%d", i), fv.Type()))
 	}
 	rets, panics := ev.call(f, args, fvs, 0)
+	for i := range rets {
+		rets[i] = ev.resolve(rets[i])
+	}
+	for i := range ev.effects {
+		for j := range ev.effects[i].Args {
+			ev.effects[i].Args[j] = ev.resolve(ev.effects[i].Args[j])
+		}
+	}
 	return &Leaf{Returns: rets, Effects: ev.effects, Mem: ev.finalMem(), Panics: panics}, nil
 }
 
 func (ev *evaluator) finalMem() map[string]AV {
 	out := map[string]AV{}
 	for k := range ev.stored {
-		out[ev.rename(k)] = ev.mem[k]
+		out[ev.rename(k)] = ev.resolve(ev.mem[k])
 	}
 	return out
+}
+
+// resolve replaces a lazy source by its constant when the valuation of this
+// path fixed it (without demanding it otherwise), and renames it.
+func (ev *evaluator) resolve(a AV) AV {
+	if a.K == avLazy {
+		name := ev.rename(a.Key)
+		if v, ok := ev.val[name]; ok {
+			return AV{K: avConst, C: v, T: a.T, Origin: a.Origin}
+		}
+		a.Key = name
+	}
+	return a
 }
 
 // paramValue builds the abstract value of an input of the given type rooted at key.
@@ -1074,6 +1095,11 @@ func (ev *evaluator) doCall(fr *frame, c *ssa.CallCommon, in ssa.Instruction, de
 		}
 		if depth >= ev.spec.Depth && ev.p.InRepo(callee) && callee.Blocks != nil {
 			ev.abort("inline depth exceeded at %s", ev.p.FuncKey(callee))
+		}
+		if name == "(*sync.Once).Do" && len(args) == 2 && args[1].K == avFunc && args[1].Fn != nil && args[1].Fn.Blocks != nil {
+			// library model: Once.Do(f) calls f (first call)
+			ev.call(args[1].Fn, nil, args[1].Bind, depth+1)
+			return AV{K: avTuple}
 		}
 		if v, ok := ev.libModel(name, args); ok {
 			return v
